@@ -386,5 +386,150 @@ def replay(f):
     return out
 
 
+# ---------------------------------------------------------------- correspondence (1): the wrapper
+
+class Recorder:
+    """stands between beyond.propagators.sgp4 and the sgp4 package inside the harness process (no repository change):
+    records the lines handed to twoline2rv and the arguments handed to satrec.propagate; delegates to the real library,
+    or to a stub library (`lib : Lines -> UtcFields -> Km6` is a parameter of the model)"""
+
+    def __init__(self, stub=False):
+        self.stub = stub
+        self.lines = None
+        self.calls = []
+
+    def twoline2rv(self, l1, l2, const):
+        from sgp4.io import twoline2rv
+        from sgp4.earth_gravity import wgs72
+        self.lines = [l1, l2]
+        self.const_is_wgs72 = const is wgs72
+        rec = self
+        sat = None if self.stub else twoline2rv(l1, l2, const)
+
+        class Proxy:
+            def propagate(self, *args):
+                rec.calls.append(args)
+                if rec.stub:
+                    return (1.0, -2.0, 3.5), (-4.0, 5.0, 6.25)
+                return sat.propagate(*args)
+        return Proxy()
+
+
+_G1 = "1 26038U 99071A   17100.50000000  .00000000  00000-0  00000-0 0  999"
+_G2 = "2 26038   0.0500  80.0000 0002000 120.0000 200.0000  1.00270000 1000"
+GEO = (_G1 + str(checksum(_G1)), _G2 + str(checksum(_G2)))
+
+
+def edge_datetimes(rng, n):
+    """UTC datetimes 1957-2056 stressing the calendar split: month/year ends, leap days, midnight, microsecond extremes"""
+    out = []
+    for _ in range(n):
+        y = rng.randint(1957, 2056)
+        r = rng.random()
+        if r < 0.25:
+            m, d = rng.choice([(12, 31), (1, 1), (2, 28), (3, 1), (2, 29 if (y % 4 == 0 and (y % 100 != 0 or y % 400 == 0)) else 28), (6, 30), (7, 1), (10, 31), (11, 30)])
+        else:
+            m = rng.randint(1, 12)
+            d = rng.randint(1, [31, 29 if (y % 4 == 0 and (y % 100 != 0 or y % 400 == 0)) else 28, 31, 30, 31, 30, 31, 31, 30, 31, 30, 31][m - 1])
+        r = rng.random()
+        if r < 0.2:
+            h, mi, sec, us = rng.choice([(0, 0, 0, 0), (23, 59, 59, 999999), (0, 0, 0, 1), (23, 59, 59, 0), (12, 0, 0, 0), (0, 0, 37, 0), (23, 59, 23, 0)])
+        else:
+            h, mi, sec = rng.randint(0, 23), rng.randint(0, 59), rng.randint(0, 59)
+            us = rng.choice([0, 1, 5, 10, 500000, 999999, rng.randint(0, 999999), rng.randint(0, 999999)])
+        out.append(_dt.datetime(y, m, d, h, mi, sec, us))
+    return out
+
+
+def wrapper_cases(ctx, out):
+    """real Sgp4 vs the model `Wrapper.run`: the arguments handed to the library must be exactly the model's tuple, and the
+    result must be exactly 1000 x what the library returns for that tuple"""
+    from unittest.mock import patch
+    from beyond.io.tle import Tle
+    from beyond.dates import Date, timedelta
+    rng = ctx.rng
+    reqs, meta = [], []
+    with eop():
+        # stream 1: stub library, edge dates, every label
+        for target in edge_datetimes(rng, ctx.n(700, 20000)):
+            label = rng.choice(LABELS)
+            rec = Recorder(stub=True)
+            with patch("beyond.propagators.sgp4.twoline2rv", rec.twoline2rv):
+                orb = Tle(GEO[0] + "\n" + GEO[1]).orbit()
+                date = Date(target, scale="UTC")
+                if label != "UTC":
+                    date = date.change_scale(label)
+                res = [float(x) for x in orb.propagate(date)]
+            utc_us = (date.change_scale("UTC").datetime - T0) // US
+            drift = utc_us - (target - T0) // US
+            reqs.append(f"sgp4fields {utc_us}")
+            meta.append(("stub", rec, res, {"utc": target.isoformat(), "label": label, "lib": "stub"}, None))
+            out.count(key=reqs[-1] + label, kind="fields-stub-lib", label=label, roundtrip_drift_us=drift,
+                      edge=("midnight" if target.time() == _dt.time(0) else "last-us" if target.microsecond == 999999 and target.second == 59 else "interior"))
+        # stream 2: the installed sgp4 package, catalogue-like TLEs, +-30 d
+        for _ in range(ctx.n(300, 8000)):
+            l1, l2, info = gen_tle(rng)
+            if tiny_fields(l1):
+                continue
+            off = gen_offset_us(rng)
+            target = info["epoch"] + off * US
+            label = rng.choice(LABELS)
+            rec = Recorder()
+            with patch("beyond.propagators.sgp4.twoline2rv", rec.twoline2rv):
+                orb = Tle(l1 + "\n" + l2).orbit()
+                date = Date(target, scale="UTC")
+                if label != "UTC":
+                    date = date.change_scale(label)
+                use_td = label == "UTC" and rng.random() < 0.3
+                try:
+                    res = [float(x) for x in (orb.propagate(timedelta(microseconds=off)) if use_td else orb.propagate(date))]
+                except TypeError:
+                    res = None          # the library reported an error code (decayed object ...): `False + False`
+            if use_td:
+                date = orb.date + timedelta(microseconds=off)
+            utc_us = (date.change_scale("UTC").datetime - T0) // US
+            reqs.append(f"sgp4fields {utc_us}")
+            meta.append(("real", rec, res, {"line1": l1, "line2": l2, "utc": target.isoformat(), "label": label, "offset_us": off, "timedelta": use_td}, (l1, l2)))
+            out.count(key=(l1, off, label), nontrivial=off != 0, kind="fields-real-lib", label=label, lines="identical" if rec.lines == [l1, l2] else "differ",
+                      deep=info["n"] < 6.4, lib_error=res is None, arg="timedelta" if use_td else "date")
+        # malformed request: the model rejects what cannot be a datetime
+        reqs.append("sgp4fields -5")
+        meta.append(("bad", None, None, None, None))
+    replies = core.Driver().run(reqs)
+    for req, (kind, rec, res, inp, lines), rep in zip(reqs, meta, replies):
+        if kind == "bad":
+            if rep != "value-error":
+                out.fail("wrapper-fields", "model accepts a negative microsecond count", req, observed="(n/a)", expected=rep)
+            continue
+        toks = rep.split()
+        if len(toks) != 7:
+            out.fail("wrapper-fields", "model rejected the request", inp, observed=rec.calls, expected=rep)
+            continue
+        y, mo, d, h, mi, sus = (int(t) for t in toks[:6])
+        sec = b2f(toks[6])
+        model_args = (float(y), float(mo), float(d), float(h), float(mi), sec)
+        if sec != float(f"{sus // 10**6:02d}.{sus % 10**6:06d}"):
+            out.fail("wrapper-fields", "Lean's decimal->double conversion of SS.ffffff differs from Python's", inp, observed=float(f"{sus // 10**6:02d}.{sus % 10**6:06d}"), expected=sec)
+        if len(rec.calls) != 1 or tuple(rec.calls[0]) != model_args or not all(type(a) is float for a in rec.calls[0]):
+            out.fail("wrapper-fields", "arguments handed to satrec.propagate differ from the model's UTC tuple", inp, observed=[list(c) for c in rec.calls], expected=list(model_args))
+            continue
+        if not rec.const_is_wgs72:
+            out.fail("wrapper-gravity", "twoline2rv is not called with the WGS-72 constants", inp, observed="other", expected="wgs72")
+        if kind == "stub":
+            expect = [1000.0, -2000.0, 3500.0, -4000.0, 5000.0, 6250.0]
+        else:
+            # the model's right-hand side: 1000 x (library on the lines it was given, on the model's tuple), bit for bit
+            sat = reference(*rec.lines)
+            p, v = sat.propagate(*model_args)
+            expect = None if p is False else [x * 1000 for x in tuple(p) + tuple(v)]
+        same = (res is None and expect is None) or (res is not None and expect is not None and len(res) == len(expect)
+                                                     and all(a == b or (math.isnan(a) and math.isnan(b)) for a, b in zip(res, expect)))
+        if not same:
+            out.fail("wrapper-scale", "wrapper result is not exactly 1000 x the library's result for the model's arguments", inp, observed=res, expected=expect)
+        out.sample({"request": req, "handed_to_library": list(rec.calls[0]), "model": rep}, limit=2)
+
+
 def correspondence(ctx):
-    return Outcome()
+    out = Outcome()
+    wrapper_cases(ctx, out)
+    return out
